@@ -41,6 +41,27 @@
 //     (`if !c {A} else {B}` ≡ `if c {B} else {A}`); conditions are in negation normal form for
 //     comparisons (`!(a == b)` ≡ `a != b`); statements without shown content disappear.
 //
+// Round 2 (docs/ROBUST2_BRIEF.md) added:
+//
+//   - dispatch: `switch [tag] {…}` is walked as the if / else-if chain it abbreviates (`case a, b` =
+//     `tag == a || tag == b`; a clause that only falls through lends its tests to the next one;
+//     `default` is the final else wherever it stands); a chain — or a run of `if x == c {…return}`
+//     statements — whose tests compare ONE expression with pairwise different constants is sorted by
+//     the printed test, branches that show nothing are left out when the final else shows nothing;
+//     `else { if … }` prints as `elif`.  With terminating branches this gives one guard per branch.
+//   - loops: `if c {A; continue}; REST` ≡ `if c {A} else {REST}` (likewise with a bare return in a
+//     function without results); a trailing `continue` / bare `return` is dropped; `if c {} else {B}`
+//     ≡ `if !c {B}`.
+//   - `x := f(…); return x` (x used nowhere else) ≡ `return f(…)`; `len(s) == 0` ≡ `s == ""`,
+//     `len(s) != 0` ≡ `len(s) > 0` ≡ `s != ""` for strings.
+//   - an impure helper called as a statement (`L… = h(…)`, `return h(…)`, `h(…)`) is walked in the
+//     CONTEXT of the call: parameters / receiver stand for the argument texts, its locals are numbered
+//     together with the caller's, a local it only hands back with its final return stands for the
+//     caller's left side (assumes the left side was empty before — documented limit), a `return …,
+//     err` inside it is the caller's own return when the caller propagates the error unchanged right
+//     after the call (that `if err != nil {return …, err}` is then not shown a second time).  So
+//     extracting such a helper or inlining it by hand gives the same skeleton, guards included.
+//
 // A function of the list that is missing, a package that does not type-check, or a statement
 // kind the walker does not know and that contains a call, is an error (exit 1).
 package main
@@ -389,6 +410,17 @@ type fctx struct {
 	// printing the body of a one-liner: parameters stand for argument texts (with their precedence)
 	fixedPrec map[types.Object]int
 	inlining  int
+	uses      map[types.Object]int // how often a variable is read
+	// inlined helper: names (placeholders, closure numbers) are those of the function it is inlined into
+	root  *fctx
+	alias map[types.Object]bool // locals of the helper that stand for the caller's left side
+}
+
+func (fc *fctx) rt() *fctx {
+	if fc.root != nil {
+		return fc.root.rt()
+	}
+	return fc
 }
 
 // loc: a variable, or one field of a variable (access paths of length ≤ 1)
@@ -609,6 +641,15 @@ func newCtx(fi *fnInfo) *fctx {
 		}
 		flows = append(flows, flow{ls, rhs})
 	}
+	fc.uses = map[types.Object]int{}
+	ast.Inspect(fd.Body, func(n ast.Node) bool {
+		if id, ok := n.(*ast.Ident); ok {
+			if o := fc.info.Uses[id]; o != nil {
+				fc.uses[o]++
+			}
+		}
+		return true
+	})
 	ast.Inspect(fd.Body, func(n ast.Node) bool {
 		switch v := n.(type) {
 		case *ast.AssignStmt:
@@ -824,11 +865,15 @@ func isErrorType(t types.Type) bool {
 }
 
 func (fc *fctx) placeholder(o types.Object) string {
-	i, ok := fc.lazyIdx[o]
+	r := fc.rt()
+	i, ok := r.lazyIdx[o]
 	if !ok {
-		i = len(fc.lazy)
-		fc.lazy = append(fc.lazy, o)
-		fc.lazyIdx[o] = i
+		i = len(r.lazy)
+		r.lazy = append(r.lazy, o)
+		r.lazyIdx[o] = i
+		if fc.reply[o] {
+			r.reply[o] = true
+		}
 	}
 	return fmt.Sprintf("\x01%d\x02", i)
 }
@@ -1117,6 +1162,32 @@ func stripParen(e ast.Expr) ast.Expr {
 }
 
 // cond: condition; neg: print its negation.  Comparisons are negated by flipping the operator.
+func isZeroLit(e ast.Expr) bool {
+	b, ok := stripParen(e).(*ast.BasicLit)
+	return ok && b.Kind == token.INT && b.Value == "0"
+}
+
+// lenOfString: e is `len(s)` with s of a string type
+func (fc *fctx) lenOfString(e ast.Expr) (ast.Expr, bool) {
+	c, ok := stripParen(e).(*ast.CallExpr)
+	if !ok || len(c.Args) != 1 {
+		return nil, false
+	}
+	id, ok := c.Fun.(*ast.Ident)
+	if !ok || id.Name != "len" {
+		return nil, false
+	}
+	if _, isB := fc.obj(id).(*types.Builtin); !isB {
+		return nil, false
+	}
+	if tv, ok := fc.info.Types[c.Args[0]]; ok && tv.Type != nil {
+		if b, ok := tv.Type.Underlying().(*types.Basic); ok && b.Info()&types.IsString != 0 {
+			return c.Args[0], true
+		}
+	}
+	return nil, false
+}
+
 func (fc *fctx) cond(e ast.Expr, neg bool) string {
 	t, _ := fc.condP(e, neg)
 	return t
@@ -1137,6 +1208,15 @@ func (fc *fctx) condP(e ast.Expr, neg bool) (string, int) {
 			op := v.Op
 			if neg {
 				op = f
+			}
+			// `len(s) == 0` ≡ `s == ""`, `len(s) != 0` ≡ `len(s) > 0` ≡ `s != ""` for a string s
+			if s, ok := fc.lenOfString(v.X); ok && isZeroLit(v.Y) {
+				switch op {
+				case token.EQL, token.LEQ:
+					return fc.operand(s, token.EQL.Precedence()) + " == \"\"", token.EQL.Precedence()
+				case token.NEQ, token.GTR:
+					return fc.operand(s, token.NEQ.Precedence()) + " != \"\"", token.NEQ.Precedence()
+				}
 			}
 			pr := op.Precedence()
 			return fc.operand(v.X, pr) + " " + op.String() + " " + fc.operand(v.Y, pr+1), pr
@@ -1185,8 +1265,9 @@ type ex struct {
 	fn      string
 	fc      *fctx
 	inline  map[*fnInfo]bool
-	pending []string // argument texts of the call about to be emitted
-	ctl     []string // enclosing loops / switches of the current function body
+	pending []string   // argument texts of the call about to be emitted
+	ictx    *inlineCtx // set while the body of an inlined helper is walked
+	ctl     []string   // enclosing loops / switches of the current function body
 }
 
 func (x *ex) emit(kind, txt string) *node {
@@ -1319,8 +1400,8 @@ func (x *ex) call(c *ast.CallExpr) {
 }
 
 func (x *ex) closure(fl *ast.FuncLit, name string) {
-	x.fc.nclosure++
-	k := x.fc.nclosure
+	x.fc.rt().nclosure++
+	k := x.fc.rt().nclosure
 	i := 0
 	if fl.Type.Params != nil {
 		for _, f := range fl.Type.Params.List {
@@ -1333,16 +1414,17 @@ func (x *ex) closure(fl *ast.FuncLit, name string) {
 		}
 	}
 	n := x.emit("closure", name)
-	saveRets, saveSw, saveCtl := x.rets, x.inSw, x.ctl
+	saveRets, saveSw, saveCtl, saveI := x.rets, x.inSw, x.ctl, x.ictx
 	x.rets = true
 	x.inSw = 0
 	x.ctl = nil
+	x.ictx = nil
 	role := ""
 	if fl.Type.Results == nil || len(fl.Type.Results.List) == 0 {
 		role = "func"
 	}
 	x.under(n, func() { x.blockRole(fl.Body.List, role) })
-	x.rets, x.inSw, x.ctl = saveRets, saveSw, saveCtl
+	x.rets, x.inSw, x.ctl, x.ictx = saveRets, saveSw, saveCtl, saveI
 }
 
 func (x *ex) expr(e ast.Expr) {
@@ -1412,6 +1494,326 @@ func (x *ex) terminates(l []ast.Stmt) bool {
 	return false
 }
 
+// ---- a helper inlined in the context of the statement that calls it
+//
+// `L… = h(args)` / `return h(args)` where h is an impure module function with a unique callee is
+// walked as if h's body stood there (so that extracting the helper, or inlining it by hand, gives the
+// same skeleton): parameters and receiver stand for the argument texts; h's locals are numbered
+// with the caller's; a local that h only hands back with its final return stands for the caller's
+// left side; a `return` inside h becomes the caller's own return if the caller propagates h's
+// error unchanged (`if err != nil { return …, err }` right after the call, which is then not
+// shown a second time); h's final return shows nothing.
+type inlineCtx struct {
+	mode     string // assign | return | discard
+	lhs      []string
+	prop     []string // the caller's return, error slot = "\x00"
+	final    *ast.ReturnStmt
+	caller   *ex
+	callerFc *fctx
+}
+
+// inlinable: the call is inlined by the walker (see ex.call)
+func (x *ex) inlinable(c *ast.CallExpr) *fnInfo {
+	f := staticCallee(x.fc.info, c)
+	if f == nil || isAbort(f) || isWarning(f) {
+		return nil
+	}
+	if _, _, ok := wirePrim(f); ok {
+		return nil
+	}
+	if f.Pkg() != nil {
+		if rel, ok := relPkg(f.Pkg().Path()); ok && fullArgs[rel+"."+f.Name()] {
+			return nil
+		}
+	}
+	cands, dynamic := callees(x.fc.info, c)
+	if dynamic || len(cands) != 1 || cands[0].listed || !isImpure(cands[0]) || x.inline[cands[0]] {
+		return nil
+	}
+	for _, a := range c.Args {
+		if _, isLit := a.(*ast.FuncLit); isLit {
+			return nil
+		}
+	}
+	if c.Ellipsis.IsValid() {
+		return nil
+	}
+	return cands[0]
+}
+
+func (x *ex) retPart(fc *fctx, r ast.Expr) string {
+	if c, ok := stripParen(r).(*ast.CallExpr); ok {
+		f := staticCallee(fc.info, c)
+		switch {
+		case replySource(fc.info, c):
+			return "<reply>"
+		case f != nil && f.Pkg() != nil && f.Pkg().Path() == "strings":
+			return fc.p(r)
+		case f != nil:
+			return f.Name() + "(…)"
+		}
+	}
+	return fc.p(r)
+}
+
+// propagation: `if E != nil { return …, E }` with E the given error variable → the parts of the return
+func (x *ex) propagation(s ast.Stmt, errObj types.Object) []string {
+	v, ok := s.(*ast.IfStmt)
+	if !ok || v.Init != nil || v.Else != nil || len(v.Body.List) != 1 || errObj == nil {
+		return nil
+	}
+	b, ok := stripParen(v.Cond).(*ast.BinaryExpr)
+	if !ok || b.Op != token.NEQ {
+		return nil
+	}
+	id, ok := b.X.(*ast.Ident)
+	if !ok || x.fc.obj(id) != errObj {
+		return nil
+	}
+	if n, ok := b.Y.(*ast.Ident); !ok || n.Name != "nil" {
+		return nil
+	}
+	rs, ok := v.Body.List[0].(*ast.ReturnStmt)
+	if !ok || len(rs.Results) == 0 {
+		return nil
+	}
+	var parts []string
+	seen := false
+	for _, r := range rs.Results {
+		if rid, ok := stripParen(r).(*ast.Ident); ok && x.fc.obj(rid) == errObj {
+			if seen {
+				return nil
+			}
+			seen = true
+			parts = append(parts, "\x00")
+			continue
+		}
+		hasCall := false
+		ast.Inspect(r, func(n ast.Node) bool {
+			if _, ok := n.(*ast.CallExpr); ok {
+				hasCall = true
+			}
+			return !hasCall
+		})
+		if hasCall {
+			return nil
+		}
+		parts = append(parts, x.fc.p(r))
+	}
+	if !seen {
+		return nil
+	}
+	return parts
+}
+
+// inlineStmt: s is `L… = h(…)`, `return h(…)` or `h(…)` with an inlinable h; next is the statement
+// after it.  Returns how many statements were consumed (0: not handled here).
+func (x *ex) inlineStmt(s, next ast.Stmt) int {
+	var call *ast.CallExpr
+	ic := &inlineCtx{caller: x, callerFc: x.fc}
+	var lhsExprs []ast.Expr
+	switch v := s.(type) {
+	case *ast.AssignStmt:
+		if len(v.Rhs) != 1 {
+			return 0
+		}
+		c, ok := stripParen(v.Rhs[0]).(*ast.CallExpr)
+		if !ok {
+			return 0
+		}
+		call, ic.mode, lhsExprs = c, "assign", v.Lhs
+	case *ast.ReturnStmt:
+		if len(v.Results) != 1 || !x.rets || x.ictx != nil {
+			return 0
+		}
+		c, ok := stripParen(v.Results[0]).(*ast.CallExpr)
+		if !ok {
+			return 0
+		}
+		call, ic.mode = c, "return"
+	case *ast.ExprStmt:
+		c, ok := stripParen(v.X).(*ast.CallExpr)
+		if !ok {
+			return 0
+		}
+		call, ic.mode = c, "discard"
+	default:
+		return 0
+	}
+	fi := x.inlinable(call)
+	if fi == nil || fi.decl.Type.Params == nil {
+		return 0
+	}
+	nparams := 0
+	for _, f := range fi.decl.Type.Params.List {
+		if _, variadic := f.Type.(*ast.Ellipsis); variadic || len(f.Names) == 0 {
+			return 0
+		}
+		nparams += len(f.Names)
+	}
+	if nparams != len(call.Args) {
+		return 0
+	}
+	// arguments (calls inside them happen before)
+	for _, a := range call.Args {
+		x.expr(a)
+	}
+	if sel, ok := call.Fun.(*ast.SelectorExpr); ok {
+		x.expr(sel.X)
+	}
+	sfc := newCtx(fi)
+	sfc.root = x.fc
+	sfc.alias = map[types.Object]bool{}
+	sfc.fixedPrec = map[types.Object]int{}
+	bind := func(o types.Object, e ast.Expr) {
+		if o == nil {
+			return
+		}
+		t, pr := x.fc.pp(e)
+		sfc.fixed[o] = t
+		sfc.fixedPrec[o] = pr
+	}
+	if fd := fi.decl; fd.Recv != nil && len(fd.Recv.List) > 0 && len(fd.Recv.List[0].Names) > 0 {
+		if sel, ok := call.Fun.(*ast.SelectorExpr); ok {
+			bind(fi.info.Defs[fd.Recv.List[0].Names[0]], sel.X)
+		}
+	}
+	i := 0
+	for _, f := range fi.decl.Type.Params.List {
+		for _, n := range f.Names {
+			bind(fi.info.Defs[n], call.Args[i])
+			i++
+		}
+	}
+	consumed := 1
+	var errObj types.Object
+	for _, l := range lhsExprs {
+		ic.lhs = append(ic.lhs, x.fc.p(l))
+		if id, ok := l.(*ast.Ident); ok && id.Name != "_" {
+			if o := x.fc.obj(id); o != nil && isErrorType(o.Type()) {
+				errObj = o
+			}
+		}
+	}
+	if ic.mode == "assign" && next != nil {
+		if p := x.propagation(next, errObj); p != nil {
+			ic.prop = p
+			consumed = 2
+		}
+	}
+	body := fi.decl.Body.List
+	if n := len(body); n > 0 {
+		if rs, ok := body[n-1].(*ast.ReturnStmt); ok {
+			ic.final = rs
+		}
+	}
+	// a local that is only handed back by the final return stands for the caller's left side
+	if ic.mode == "assign" && ic.final != nil {
+		inOther := map[types.Object]bool{}
+		ast.Inspect(fi.decl.Body, func(n ast.Node) bool {
+			if rs, ok := n.(*ast.ReturnStmt); ok && rs != ic.final {
+				for _, r := range rs.Results {
+					ast.Inspect(r, func(m ast.Node) bool {
+						if id, ok := m.(*ast.Ident); ok {
+							if o := fi.info.Uses[id]; o != nil {
+								inOther[o] = true
+							}
+						}
+						return true
+					})
+				}
+			}
+			return true
+		})
+		for k, r := range ic.final.Results {
+			id, ok := stripParen(r).(*ast.Ident)
+			if !ok || k >= len(lhsExprs) {
+				continue
+			}
+			o := fi.info.Uses[id]
+			if o == nil || !sfc.isLocal(o) || sfc.fixed[o] != "" || inOther[o] || isErrorType(o.Type()) {
+				continue
+			}
+			if lid, ok := lhsExprs[k].(*ast.Ident); ok && lid.Name == "_" {
+				continue
+			}
+			bind(o, lhsExprs[k])
+			sfc.alias[o] = true
+		}
+	}
+	x.emit("", "") // invisible marker: the call happens here
+	sx := &ex{cur: x.cur, rets: x.rets, front: false, fn: x.fn + "→" + fi.name, fc: sfc, inline: x.inline, ictx: ic}
+	role := ""
+	if fi.decl.Type.Results == nil || len(fi.decl.Type.Results.List) == 0 {
+		role = "func"
+	}
+	x.inline[fi] = true
+	sx.blockRole(body, role)
+	x.inline[fi] = false
+	return consumed
+}
+
+// inlinedReturn: a `return` of the helper that is being inlined
+func (x *ex) inlinedReturn(v *ast.ReturnStmt) {
+	ic, fc := x.ictx, x.fc
+	for _, r := range v.Results {
+		x.expr(r)
+	}
+	switch ic.mode {
+	case "return":
+		if !ic.caller.rets {
+			return
+		}
+		parts := make([]string, len(v.Results))
+		for i, r := range v.Results {
+			parts[i] = x.retPart(fc, r)
+		}
+		x.emit("ret", strings.Join(parts, ", "))
+	case "assign":
+		if v == ic.final {
+			// what is handed back goes to the caller's left side
+			for k, r := range v.Results {
+				if k >= len(ic.lhs) || ic.lhs[k] == "_" {
+					continue
+				}
+				if id, ok := stripParen(r).(*ast.Ident); ok && (id.Name == "nil" || fc.alias[fc.obj(id)]) {
+					continue
+				}
+				if tv, ok := fc.info.Types[r]; ok && isErrorType(tv.Type) {
+					continue
+				}
+				n := x.emit("assign", "")
+				n.isAssign, n.carries = true, true
+				n.lhs = ic.lhs[k]
+				if fc.textual(r) {
+					n.rhs = fc.p(r)
+					n.text = n.lhs + " = " + n.rhs
+				} else {
+					n.rhs = fc.deps([]ast.Expr{r})
+					n.text = n.lhs + " ⇐ " + n.rhs
+				}
+			}
+			return
+		}
+		if ic.prop == nil || !ic.caller.rets || len(v.Results) == 0 {
+			return
+		}
+		last := v.Results[len(v.Results)-1]
+		if id, ok := stripParen(last).(*ast.Ident); ok && id.Name == "nil" {
+			return
+		}
+		parts := make([]string, len(ic.prop))
+		for i, p := range ic.prop {
+			if p == "\x00" {
+				parts[i] = x.retPart(fc, last)
+			} else {
+				parts[i] = p
+			}
+		}
+		x.emit("ret", strings.Join(parts, ", "))
+	}
+}
+
 func (x *ex) block(l []ast.Stmt) { x.blockRole(l, "") }
 
 // blockRole: role "loop": l is the body of a loop; "func": l is the body of a function or closure
@@ -1420,16 +1822,40 @@ func (x *ex) block(l []ast.Stmt) { x.blockRole(l, "") }
 //
 //	if c { continue }; REST  ≡  if !c { REST }        if c { return }; REST  ≡  if !c { REST }
 func (x *ex) blockRole(l []ast.Stmt, role string) {
-	for i, s := range l {
-		if v, ok := s.(*ast.IfStmt); ok && role != "" && v.Else == nil && v.Init == nil && len(v.Body.List) == 1 {
-			skip := false
-			switch b := v.Body.List[0].(type) {
-			case *ast.BranchStmt:
-				skip = role == "loop" && b.Tok == token.CONTINUE && b.Label == nil
-			case *ast.ReturnStmt:
-				skip = role == "func" && len(b.Results) == 0
+	// a `continue` / bare `return` that ends the body of a loop / of a function without results says nothing
+	if n := len(l); n > 0 && role != "" {
+		switch b := l[n-1].(type) {
+		case *ast.BranchStmt:
+			if role == "loop" && b.Tok == token.CONTINUE && b.Label == nil {
+				l = l[:n-1]
 			}
-			if skip {
+		case *ast.ReturnStmt:
+			if role == "func" && len(b.Results) == 0 {
+				l = l[:n-1]
+			}
+		}
+	}
+	for i := 0; i < len(l); i++ {
+		s := l[i]
+		var next ast.Stmt
+		if i+1 < len(l) {
+			next = l[i+1]
+		}
+		if k := x.inlineStmt(s, next); k > 0 {
+			i += k - 1
+			continue
+		}
+		if v, ok := s.(*ast.IfStmt); ok && role != "" && v.Else == nil && len(v.Body.List) >= 1 {
+			n := len(v.Body.List)
+			skips := false
+			switch b := v.Body.List[n-1].(type) {
+			case *ast.BranchStmt:
+				skips = role == "loop" && b.Tok == token.CONTINUE && b.Label == nil
+			case *ast.ReturnStmt:
+				skips = role == "func" && len(b.Results) == 0
+			}
+			if skips && n == 1 && v.Init == nil {
+				// `if c { continue }; REST`  ≡  `if !c { REST }`
 				x.expr(v.Cond)
 				rest := x.sub(func() { x.blockRole(l[i+1:], role) })
 				if len(rest) > 0 {
@@ -1438,9 +1864,252 @@ func (x *ex) blockRole(l []ast.Stmt, role string) {
 				}
 				return
 			}
+			if skips {
+				// `if c { A; continue }; REST`  ≡  `if c { A } else { REST }`
+				body := &ast.BlockStmt{List: v.Body.List[:n-1]}
+				x.ifStmt(&ast.IfStmt{If: v.If, Init: v.Init, Cond: v.Cond, Body: body, Else: &ast.BlockStmt{List: l[i+1:]}})
+				return
+			}
+		}
+		// a run of `if x == a {…return}; if x == b {…return}` is the dispatch `if x == a {…} else if x == b {…}`
+		if v, ok := s.(*ast.IfStmt); ok {
+			if tag, _, ok := x.fc.eqConsts(v.Cond); ok && v.Else == nil && v.Init == nil && x.terminates(v.Body.List) {
+				j := i + 1
+				for j < len(l) {
+					w, ok := l[j].(*ast.IfStmt)
+					if !ok || w.Else != nil || w.Init != nil || !x.terminates(w.Body.List) {
+						break
+					}
+					if t2, _, ok := x.fc.eqConsts(w.Cond); !ok || t2 != tag {
+						break
+					}
+					j++
+				}
+				if j > i+1 {
+					var chain *ast.IfStmt
+					for k := j - 1; k >= i; k-- {
+						w := l[k].(*ast.IfStmt)
+						c := &ast.IfStmt{If: w.If, Cond: w.Cond, Body: w.Body}
+						if chain != nil {
+							c.Else = chain
+						}
+						chain = c
+					}
+					x.ifStmt(chain)
+					i = j - 1
+					continue
+				}
+			}
 		}
 		x.stmt(s)
 	}
+}
+
+// eqConsts: the condition is `e == c1 [|| e == c2 …]` with constants c; returns the printed e and the constants.
+func (fc *fctx) eqConsts(e ast.Expr) (string, []string, bool) {
+	e = stripParen(e)
+	b, ok := e.(*ast.BinaryExpr)
+	if !ok {
+		return "", nil, false
+	}
+	if b.Op == token.LOR {
+		t1, c1, ok1 := fc.eqConsts(b.X)
+		t2, c2, ok2 := fc.eqConsts(b.Y)
+		if ok1 && ok2 && t1 == t2 {
+			return t1, append(c1, c2...), true
+		}
+		return "", nil, false
+	}
+	if b.Op != token.EQL {
+		return "", nil, false
+	}
+	if tv, ok := fc.info.Types[b.Y]; ok && tv.Value != nil {
+		if tv2, ok := fc.info.Types[b.X]; ok && tv2.Value != nil {
+			return "", nil, false
+		}
+		return fc.p(b.X), []string{fc.p(b.Y)}, true
+	}
+	return "", nil, false
+}
+
+// sortChain: an if / else-if chain whose tests compare ONE expression with pairwise different
+// constants is a dispatch; the order of its branches says nothing: sorted by the printed test.
+func (x *ex) sortChain(v *ast.IfStmt) *ast.IfStmt {
+	type br struct {
+		key string
+		st  *ast.IfStmt
+	}
+	var brs []br
+	var last ast.Stmt
+	tag := ""
+	seen := map[string]bool{}
+	for cur := v; ; {
+		t, cs, ok := x.fc.eqConsts(cur.Cond)
+		if !ok || (cur != v && cur.Init != nil) || (tag != "" && t != tag) {
+			return v
+		}
+		tag = t
+		sort.Strings(cs)
+		for _, c := range cs {
+			if seen[c] {
+				return v
+			}
+			seen[c] = true
+		}
+		brs = append(brs, br{strings.Join(cs, ","), cur})
+		next, isIf := cur.Else.(*ast.IfStmt)
+		if !isIf {
+			last = cur.Else
+			break
+		}
+		cur = next
+	}
+	// a branch that shows nothing is the same as no branch, unless there is a final else that shows something
+	probe := func(l []ast.Stmt) bool {
+		nc, nf := x.fc.rt().nclosure, x.fc.rt().nfn
+		pend := x.pending
+		n := len(x.sub(func() { x.block(l) }))
+		x.fc.rt().nclosure, x.fc.rt().nfn, x.pending = nc, nf, pend
+		return n > 0
+	}
+	elseShows := false
+	if last != nil {
+		if bl, ok := last.(*ast.BlockStmt); ok {
+			elseShows = probe(bl.List)
+		} else {
+			elseShows = true
+		}
+	}
+	dropped := false
+	if !elseShows {
+		var keep []br
+		for _, b := range brs {
+			if probe(b.st.Body.List) {
+				keep = append(keep, b)
+			} else {
+				dropped = true
+			}
+		}
+		if len(keep) == 0 {
+			keep = brs[:1]
+		}
+		brs = keep
+		if dropped {
+			last = nil
+		}
+	}
+	sorted := append([]br(nil), brs...)
+	sort.SliceStable(sorted, func(i, j int) bool { return sorted[i].key < sorted[j].key })
+	same := true
+	for i := range brs {
+		if brs[i].st != sorted[i].st {
+			same = false
+		}
+	}
+	if same && !dropped {
+		return v
+	}
+	var chain *ast.IfStmt
+	for k := len(sorted) - 1; k >= 0; k-- {
+		w := sorted[k].st
+		c := &ast.IfStmt{If: w.If, Cond: w.Cond, Body: w.Body}
+		if k == 0 {
+			c.Init = v.Init
+		}
+		if chain != nil {
+			c.Else = chain
+		} else if last != nil {
+			c.Else = last
+		}
+		chain = c
+	}
+	return chain
+}
+
+// switchChain: `switch [tag] { case …: …; default: … }` as the if / else-if chain it abbreviates:
+// `case a, b:` tests `tag == a || tag == b`, a clause that only falls through lends its tests to the
+// next one (into `default`: it disappears), `default` is the final else wherever it stands, a
+// `break` that ends a clause is dropped.  nil: the switch cannot be written that way.
+func (x *ex) switchChain(v *ast.SwitchStmt) *ast.IfStmt {
+	type br struct {
+		cond ast.Expr
+		body []ast.Stmt
+	}
+	var brs []br
+	var def *br
+	var pend []ast.Expr
+	pendDef := false
+	for _, c := range v.Body.List {
+		cc := c.(*ast.CaseClause)
+		var conds []ast.Expr
+		for _, e := range cc.List {
+			if v.Tag != nil {
+				conds = append(conds, &ast.BinaryExpr{X: v.Tag, Op: token.EQL, Y: e})
+			} else {
+				conds = append(conds, e)
+			}
+		}
+		body := cc.Body
+		if n := len(body); n > 0 {
+			if b, ok := body[n-1].(*ast.BranchStmt); ok && b.Tok == token.FALLTHROUGH {
+				if n != 1 {
+					return nil
+				}
+				pend = append(pend, conds...)
+				pendDef = pendDef || cc.List == nil
+				continue
+			}
+			if b, ok := body[n-1].(*ast.BranchStmt); ok && b.Tok == token.BREAK && b.Label == nil {
+				body = body[:n-1]
+			}
+		}
+		// any other `break` of the switch cannot be expressed
+		bad := false
+		for _, st := range body {
+			ast.Inspect(st, func(n ast.Node) bool {
+				switch w := n.(type) {
+				case *ast.ForStmt, *ast.RangeStmt, *ast.SwitchStmt, *ast.TypeSwitchStmt, *ast.SelectStmt, *ast.FuncLit:
+					return false
+				case *ast.BranchStmt:
+					if w.Tok == token.BREAK && w.Label == nil {
+						bad = true
+					}
+				}
+				return !bad
+			})
+		}
+		if bad {
+			return nil
+		}
+		if cc.List == nil || pendDef {
+			def = &br{nil, body}
+		} else {
+			all := append(pend, conds...)
+			cond := all[0]
+			for _, e := range all[1:] {
+				cond = &ast.BinaryExpr{X: cond, Op: token.LOR, Y: e}
+			}
+			brs = append(brs, br{cond, body})
+		}
+		pend, pendDef = nil, false
+	}
+	if len(pend) > 0 || pendDef {
+		return nil
+	}
+	if len(brs) == 0 {
+		return nil
+	}
+	var chain *ast.IfStmt
+	for k := len(brs) - 1; k >= 0; k-- {
+		c := &ast.IfStmt{If: v.Switch, Cond: brs[k].cond, Body: &ast.BlockStmt{List: brs[k].body}}
+		if chain != nil {
+			c.Else = chain
+		} else if def != nil {
+			c.Else = &ast.BlockStmt{List: def.body}
+		}
+		chain = c
+	}
+	return chain
 }
 
 // innerLoop: the innermost enclosing breakable statement is a loop
@@ -1521,7 +2190,14 @@ func (fc *fctx) deps(es []ast.Expr) string {
 					visit(r, depth+1)
 					return true
 				}
-				add(fc.ident(v))
+				if t := fc.ident(v); fc.root != nil && fc.fixed[o] != "" && phRe.MatchString(t) {
+					// an argument / left side of the caller: what it depends on
+					for _, m := range phRe.FindAllString(t, -1) {
+						add(m)
+					}
+				} else {
+					add(t)
+				}
 			}
 			return true
 		})
@@ -1539,8 +2215,8 @@ func (x *ex) assign(v *ast.AssignStmt) {
 			if id, isID := v.Lhs[0].(*ast.Ident); isID {
 				if o := fc.obj(id); o != nil {
 					if fc.fixed[o] == "" {
-						fc.nfn++
-						fc.fixed[o] = fmt.Sprintf("f%d", fc.nfn)
+						fc.rt().nfn++
+						fc.fixed[o] = fmt.Sprintf("f%d", fc.rt().nfn)
 					}
 					x.closure(fl, fc.fixed[o])
 					return
@@ -1562,7 +2238,9 @@ func (x *ex) assign(v *ast.AssignStmt) {
 				always = true
 			}
 			if o != nil && t.Name != "_" && fc.isLocal(o) {
-				if nm := fc.fixed[o]; nm != "" && !fnameRe.MatchString(nm) {
+				if fc.alias[o] {
+					multi = true
+				} else if nm := fc.fixed[o]; nm != "" && !fnameRe.MatchString(nm) {
 					always = true // a parameter is overwritten: `p1` no longer means the argument
 				} else if fc.defs[o] > 1 && !isErrorType(o.Type()) {
 					multi = true // every definition of a variable with several definitions matters
@@ -1655,6 +2333,9 @@ func (x *ex) assign(v *ast.AssignStmt) {
 
 func (x *ex) ifStmt(v *ast.IfStmt) {
 	fc := x.fc
+	if _, isChain := v.Else.(*ast.IfStmt); isChain {
+		v = x.sortChain(v)
+	}
 	// `if a { if b { X } }`  ≡  `if a && b { X }`
 	if v.Else == nil && len(v.Body.List) == 1 {
 		// (only for conditions that do nothing that is shown: `&&` would hide when a call happens)
@@ -1734,6 +2415,12 @@ func (x *ex) ifStmt(v *ast.IfStmt) {
 		if len(a)+len(b) == 0 {
 			return
 		}
+		if len(a) == 0 {
+			// `if c {} else {B}`  ≡  `if !c {B}`
+			n := x.emit("if", fc.cond(v.Cond, !neg))
+			n.kids = b
+			return
+		}
 		n := x.emit("if", c)
 		n.kids = a
 		if len(b) > 0 {
@@ -1789,6 +2476,10 @@ func (x *ex) stmt(s ast.Stmt) {
 		n := x.emit("for", "range "+fc.p(v.X))
 		n.kids = body
 	case *ast.ReturnStmt:
+		if x.ictx != nil {
+			x.inlinedReturn(v)
+			return
+		}
 		for _, r := range v.Results {
 			x.expr(r)
 		}
@@ -1798,6 +2489,14 @@ func (x *ex) stmt(s ast.Stmt) {
 		}
 		parts := make([]string, len(v.Results))
 		for i, r := range v.Results {
+			// `x := f(…); return x`  ≡  `return f(…)`
+			if id, ok := stripParen(r).(*ast.Ident); ok {
+				if o := fc.obj(id); o != nil && fc.isLocal(o) && fc.defs[o] == 1 && fc.uses[o] == 1 && fc.mut[loc{o, ""}] == 0 && !fc.anyMut[o] {
+					if c, ok := fc.rhs[o].(*ast.CallExpr); ok {
+						r = c
+					}
+				}
+			}
 			if c, ok := r.(*ast.CallExpr); ok {
 				f := staticCallee(fc.info, c)
 				wire := replySource(fc.info, c)
@@ -1823,6 +2522,13 @@ func (x *ex) stmt(s ast.Stmt) {
 			n.kids = body
 		}
 	case *ast.SwitchStmt:
+		if chain := x.switchChain(v); chain != nil {
+			x.stmt(v.Init)
+			x.inSw++
+			x.ifStmt(chain)
+			x.inSw--
+			return
+		}
 		x.stmt(v.Init)
 		x.expr(v.Tag)
 		var cases []*node
@@ -2088,6 +2794,14 @@ type item struct {
 
 func flatten(l []*node, d int, out *[]item) {
 	for _, n := range l {
+		// `else { if c {…} [else {…}] }` is written `elif c … [else …]` at the depth of the chain
+		if n.kind == "else" && len(n.kids) >= 1 && n.kids[0].kind == "if" &&
+			(len(n.kids) == 1 || len(n.kids) == 2 && n.kids[1].kind == "else") {
+			*out = append(*out, item{d, "elif", n.kids[0].text})
+			flatten(n.kids[0].kids, d+1, out)
+			flatten(n.kids[1:], d, out)
+			continue
+		}
 		*out = append(*out, item{d, n.kind, n.text})
 		flatten(n.kids, d+1, out)
 	}
